@@ -14,6 +14,8 @@ ASSUMPTIONS = [K.A_BYTEORDER, K.A_ZLIB, K.A_TABLE, K.A_PRED]
 OBLIGATIONS = K.WRITER_LAYOUT + [K.WIG_SECTION_W, K.BED_SECTION_W, K.ZOOM_SECTION_W] + K.SPANS + [K.WIG_FLUSH, K.BED_FLUSH, K.WRITE_DATA, K.WRITE_MID, K.HEADER_ARGS, K.BUFSIZE, K.INDEX_PAIRS, K.ZOOM_OFFSETS, K.ZOOM_LIST]
 OBLIGATIONS = OBLIGATIONS + [K.TREE_OFFSETS]
 OBLIGATIONS = OBLIGATIONS + [K.EVERY_VALUE]
+# the item count of the header is the sum of the per-chromosome counts: the merge of chromosome summaries must add them unconditionally
+OBLIGATIONS = OBLIGATIONS + [K.MERGE] + [K.TOTAL_ITEMS]
 OBLIGATIONS = OBLIGATIONS + [K.MAGICS]
 # one run per chromosome (D22): a re-appearing chromosome must be refused, else sections are out of chromosome order
 OBLIGATIONS = OBLIGATIONS + [K.IDMAP]
